@@ -4,7 +4,6 @@ import (
 	"go/ast"
 	"go/token"
 	"go/types"
-	"strings"
 )
 
 func init() { register("C20", rulesC20, nil) }
@@ -38,7 +37,17 @@ func linearForm(f *Func, e ast.Expr) (map[string]int64, int64, bool) {
 		}
 		return a, ca + sign*cb, true
 	case *ast.Ident, *ast.SelectorExpr, *ast.CallExpr:
-		return map[string]int64{exprStr(x): 1}, 0, true
+		// terms are keyed independently of variable names: parameters by type, fields by owner type
+		if id, ok := x.(*ast.Ident); ok {
+			if v, ok := f.ObjOf(id).(*types.Var); ok {
+				for _, p := range f.Root().Params() {
+					if p == v {
+						return map[string]int64{"param(" + v.Type().String() + ")": 1}, 0, true
+					}
+				}
+			}
+		}
+		return map[string]int64{f.FieldPath(x): 1}, 0, true
 	}
 	return nil, 0, false
 }
@@ -197,7 +206,7 @@ func rulesC20(c *Ctx) {
 			if !ok {
 				return
 			}
-			if m, k, isIx := indexOf(rs.X); isIx && sc.IsField(m, storeF) && sc.ObjOf(k) == types.Object(sc.Param("sessionID")) {
+			if m, k, isIx := indexOf(rs.X); isIx && sc.IsField(m, storeF) && len(sc.NonRecvParams()) == 2 && sc.ObjOf(k) == types.Object(sc.NonRecvParams()[1]) {
 				for _, w := range Writes(rs.Body, false) {
 					if as, ok := w.Stmt.(*ast.AssignStmt); ok && as.Tok == token.SUB_ASSIGN && sc.IsField(w.LHS, nBytes) {
 						if s, ok := ast.Unparen(as.Rhs[0]).(*ast.SelectorExpr); ok && sc.IsField(s, sizeF) && sc.ObjOf(s.X) == sc.ObjOf(rs.Value) {
@@ -225,17 +234,11 @@ func rulesC20(c *Ctx) {
 		g := cp.Graph()
 		var start types.Object
 		for _, w := range Writes(cp.Body, false) {
-			if id, ok := w.LHS.(*ast.Ident); ok && id.Name == "start" && w.RHS != nil {
+			// the offset variable is the local computed from the list's first retained index
+			if id, ok := w.LHS.(*ast.Ident); ok && w.RHS != nil && len(cp.FieldRefs(w.RHS, firstF, false)) > 0 {
 				start = cp.ObjOf(id)
 				lf, k, ok := linearForm(cp, w.RHS)
-				okLF := ok && k == 1 && len(lf) == 2 && lf["index"] == 1
-				for term, coef := range lf {
-					if strings.HasSuffix(term, ".first") && coef == -1 {
-						okLF = okLF && true
-					} else if term != "index" {
-						okLF = false
-					}
-				}
+				okLF := ok && k == 1 && len(lf) == 2 && lf["param(int)"] == 1 && lf["dataList.first"] == -1
 				c.Check(okLF, "After:start-offset", cp, w.Stmt, "the slice offset is index + 1 - first (linear normal form of %s)", exprStr(w.RHS))
 			}
 		}
@@ -259,7 +262,7 @@ func rulesC20(c *Ctx) {
 			if isNilIdent(r.Results[0]) && isNilIdent(r.Results[1]) {
 				if hasAtom(guards, func(a Atom) bool {
 					x, y, op, ok := binaryCmp(a.E)
-					return ok && op == token.GEQ && a.Val && cp.ObjOf(x) == start && strings.HasPrefix(exprStr(y), "len(")
+					return ok && op == token.GEQ && a.Val && cp.ObjOf(x) == start && func() bool { lc, ok := ast.Unparen(y).(*ast.CallExpr); return ok && cp.BuiltinName(lc) == "len" }()
 				}) {
 					emptyRet = r
 				}
